@@ -30,6 +30,7 @@ type World struct {
 	allRoots []*packages.Package
 	cg       *callgraph.Graph
 	reach    map[*ssa.Function]bool
+	pm       *parserModel
 	prog     *ssa.Program
 	ssaPkgs  map[string]*ssa.Package
 	parents  map[ast.Node]ast.Node
